@@ -129,20 +129,29 @@ func (g *Gen) evalIdent(env *Env, x *SExpr) *Val {
 	if v, ok := env.vars[x.Name]; ok && (env.qvars[x.Name] || !env.locals || len(g.localsByName[x.Name]) == 0 || x.Name == "result") {
 		return v
 	}
-	if env.locals && env.cur != g.entry {
-		if as := g.localsByName[x.Name]; len(as) > 0 {
-			a := as[0]
-			if g.escaping[a] {
-				p := g.vals[a]
-				if p == nil {
-					specErr(x, "local %s not yet allocated", x.Name)
+	if env.locals {
+		_, isParam := env.vars[x.Name]
+		// inside old(...): a parameter denotes its entry value; any other local keeps its current value
+		// (only the heap is the old one)
+		vs := env.cur
+		if env.now != nil {
+			vs = env.now
+		}
+		if !(isParam && (env.now != nil || env.cur == g.entry)) {
+			if as := g.localsByName[x.Name]; len(as) > 0 {
+				a := as[0]
+				if g.escaping[a] {
+					p := g.vals[a]
+					if p == nil {
+						specErr(x, "local %s not yet allocated", x.Name)
+					}
+					return g.load(vs, p, 0, "")
 				}
-				return g.load(env.cur, p, 0, "")
+				if v, ok := vs.vars[a]; ok {
+					return v
+				}
+				return g.zeroVal(deref(a.Type()))
 			}
-			if v, ok := env.cur.vars[a]; ok {
-				return v
-			}
-			return g.zeroVal(deref(a.Type()))
 		}
 	}
 	// package-level object
